@@ -342,7 +342,10 @@ class Interp:
         return getattr(self, "s_" + type(n).__name__)(n, env)
 
     def s_Pass(self, n, env): return env
-    def s_Break(self, n, env): raise _Break()
+    def s_Break(self, n, env):
+        e = _Break()
+        e.env = env          # the state at the point of the break (used by harnesses that drive a loop body themselves)
+        raise e
     def s_Continue(self, n, env): raise _Continue()
     def s_Import(self, n, env): return env
     def s_ImportFrom(self, n, env): return env
